@@ -110,10 +110,12 @@ class CaseCheck:
                 if not cand:
                     break
                 cf, tf = work.path("repro%d.ndjson" % i), work.path("repro%d.trace.ndjson" % i)
-                write_ndjson(cf, cand)
+                # with the cases that shared state with them in the first run (same service, same order)
+                write_ndjson(cf, self.context(lines, cand))
                 run_driver(binary, self.replay_args(cf, tf))
                 rv = self.judge(work, tf, "_r%d" % i)
-                still = {b["id"]: b for b in rv["bad"]}
+                wanted = {c["id"] for c in cand}
+                still = {b["id"]: b for b in rv["bad"] if b["id"] in wanted}
                 got = {c["id"]: c for c in read_ndjson(tf)}
                 cand = [got[k] for k in still]
                 bad = still
@@ -125,8 +127,8 @@ class CaseCheck:
                 if k:
                     verdict.known_finding(k)
                 else:
-                    path = save_replay(self.prop, case_key(c)[:12], [c]) if len(verdict.violations) < 20 \
-                        else "(not saved)"
+                    path = save_replay(self.prop, case_key(c)[:12], self.context(lines, [c])) \
+                        if len(verdict.violations) < 20 else "(not saved)"
                     verdict.violation(path, ",".join(b["reasons"]) + " " + json.dumps(self.facts(c, b)))
 
             selftest = self.selftest(work, lines)
@@ -148,6 +150,12 @@ class CaseCheck:
             return verdict.finish()
         finally:
             work.close()
+
+    def context(self, lines, cand):
+        """The cases to execute again for the rejected cases `cand`: by default just those. Checks whose
+        cases share state in the first run (one service for many cases) return them with their
+        companions, in the order of the first run."""
+        return cand
 
     def selftest(self, work, lines):
         mutated = []
